@@ -541,6 +541,72 @@ for case, r in zip(TCASES, run_parallel(TCASES, abort_through_tls, workers=4)):
         chk.violation('close.abort-through-tls', f'abort-not-relayed:{where}|{"splice" if mode else "buffered"}', f'{where}, useSplice={mode}: 6 s after the plain endpoint reset its connection the TLS endpoint still has an open stream ({r})', {'useSplice': mode, 'where': where, 'observed': r})
     samples.append({'abort_through_tls': {'useSplice': mode, 'where': where, **r}})
 
+# ---- after a tunnel was torn down with data backed up inside the relay (its origin never read, then reset), ordinary
+#      exchanges - request, half-close, response, close - are byte-exact with their ends of stream: nothing the relay
+#      holds for a direction outlives that direction (both I/O modes)
+def after_aborted_backlog(mode):
+    hp_, ap_ = free_port(), free_port()
+    ls = socket.socket(); ls.setsockopt(socket.SOL_SOCKET, socket.SO_REUSEADDR, 1); ls.bind(('127.0.0.1', 0)); ls.listen(16)
+    pxa = Proxy({'listeners': [{'name': 'rev', 'type': 'reverse', 'bind': f'127.0.0.1:{hp_}', 'target': f'127.0.0.1:{ls.getsockname()[1]}'}], 'connectors': [{'name': 'direct'}], 'rules': [{'target': 'direct'}],
+                 'metrics': {'bind': f'127.0.0.1:{ap_}', 'ui': None}, 'ioParams': {'bufferSize': 65536, 'useSplice': mode}}, 'c04p')
+    pxa.api_port = ap_
+    if not pxa.start([hp_, ap_]):
+        return {'error': pxa.log()[-300:]}
+    out = []
+    try:
+        # (the start-up probe of the listener reached the origin too: take those connections out of the queue first)
+        ls.settimeout(0.5)
+        try:
+            while True:
+                x_, _ = ls.accept(); x_.close()
+        except OSError:
+            pass
+        ls.settimeout(5)
+        # tunnel A: 8 MB pushed at an origin that never reads, which then closes with the data unread (a reset)
+        a = socket.create_connection(('127.0.0.1', hp_), timeout=5)
+        sa, _ = ls.accept()
+        a.settimeout(0.5)
+        pushed = 0
+        blob = b'\xa5' * 65536
+        try:
+            while pushed < (8 << 20):
+                pushed += a.send(blob)
+        except (socket.timeout, OSError):
+            pass
+        time.sleep(0.3)
+        sa.close()
+        time.sleep(0.3)
+        try: a.close()
+        except OSError: pass
+        time.sleep(0.3)
+        for i in range(6):
+            c = socket.create_connection(('127.0.0.1', hp_), timeout=5)
+            so, _ = ls.accept()
+            req = pattern(295 + i, 11 + i)
+            c.sendall(req); c.shutdown(socket.SHUT_WR)
+            got_req, how_req = recv_until_eof(so, 4)
+            resp = pattern(486 + i, 23 + i)
+            so.sendall(resp); so.close()
+            got_resp, how_resp = recv_until_eof(c, 4)
+            c.close()
+            ok = got_req == req and how_req == 'eof' and got_resp == resp and how_resp == 'eof'
+            out.append('ok' if ok else f'request {len(got_req)}/{len(req)} then {how_req} ({sum(1 for b in got_req if b == 0xa5)} bytes of the torn-down tunnel); response {len(got_resp)}/{len(resp)} then {how_resp} ({sum(1 for b in got_resp if b == 0xa5)} bytes of the torn-down tunnel)')
+        return {'pushed_into_the_torn_down_tunnel': pushed, 'exchanges': out}
+    finally:
+        pxa.stop(); ls.close()
+
+for mode, r in zip((True, False), run_parallel([True, False], after_aborted_backlog, workers=2)):
+    evals += 1
+    if isinstance(r, tuple) or 'error' in r:
+        machinery(f'after aborted backlog useSplice={mode}: {r}')
+    if r['pushed_into_the_torn_down_tunnel'] < (1 << 20):
+        machinery(f'after aborted backlog useSplice={mode}: only {r["pushed_into_the_torn_down_tunnel"]} bytes could be pushed')
+    bad = [x for x in r['exchanges'] if x != 'ok']
+    distinct.add(('after-aborted-backlog', mode, bool(bad)))
+    if bad:
+        chk.violation('close.after-torn-down-tunnel', f'later-exchange-not-exact|{"splice" if mode else "buffered"}', f'useSplice={mode}: after a tunnel with {r["pushed_into_the_torn_down_tunnel"]} bytes backed up was reset by its origin, {len(bad)} of 6 ordinary request / half-close / response / close exchanges were not exact: {bad[0]}', {'useSplice': mode, 'observed': r})
+    samples.append({'after_aborted_backlog': {'useSplice': mode, **r}})
+
 # ---- a half-closed tunnel outlives the idle period as long as its open direction keeps flowing: with timeouts.idle = 2
 #      one endpoint sends a request and ends its direction, the other streams 12 pieces over 6 s
 def half_closed_streaming(case):
@@ -719,6 +785,6 @@ for case, r in zip(HCASES, run_parallel(HCASES, huge_in_flight, workers=6)):
 if evals < 100 or len(distinct) < 10:
     machinery(f'vacuous: evals={evals} distinct={len(distinct)}')
 cov = {'evaluations': evals, 'distinct_nontrivial': len(distinct), 'transitions': sum(len(s) for s in seqs) * 2, 'traces_validated_against_impl': evals,
-       'rule': f'real binary, both I/O modes: all valid sequences of <= {L} ops over (client write, origin write, client half-close, origin half-close) x terminal op (none, client RST, origin RST, client close, origin close); lock-step with observation of bytes / EOF / reset at the other end after every op; final /api/history record per connection; abort through TLS: a plain endpoint sends 2 MiB at a TLS endpoint that reads late, then resets - the TLS endpoint (client of a TLS listener / TLS upstream of a connector, both I/O modes) must not see an authenticated end-of-stream after fewer bytes than were sent',
+       'rule': f'real binary, both I/O modes: all valid sequences of <= {L} ops over (client write, origin write, client half-close, origin half-close) x terminal op (none, client RST, origin RST, client close, origin close); lock-step with observation of bytes / EOF / reset at the other end after every op; final /api/history record per connection; after a tunnel torn down with 8 MB backed up, six request / half-close / response / close exchanges are byte-exact (both I/O modes); abort through TLS: a plain endpoint sends 2 MiB at a TLS endpoint that reads late, then resets - the TLS endpoint (client of a TLS listener / TLS upstream of a connector, both I/O modes) must not see an authenticated end-of-stream after fewer bytes than were sent',
        'scripts': len(seqs), 'max_ops': L, 'matrix_scripts_run': mcount, 'matrix': f'client {MCLIENT} x middle hop {MCONN} x useSplice x {len(mseqs)} scripts (incl. 9 with 300 KB in flight when the sender ends), through two real hops', 'schedule_control': 'kernel', 'samples': samples}
 sys.exit(chk.finish('model_checking', cov, ['E4 part: lock-step scripts on loopback with 4 s one-sided deadlines; kernel scheduling between steps is not controlled']))
